@@ -365,3 +365,77 @@ pub fn maybe_marathon(sc: &mut Scenario, seed: u64, index: u64) {
     let pos = rng.usize_in(0, sc.ops.len());
     sc.ops.insert(pos, Op::Marathon { count, alphas });
 }
+
+/// Two states of the two flavours that are not bitwise equal: are they equal up to rounding?
+/// Some(true) yes / Some(false) no / None not decidable (ill-conditioned, truncation threshold
+/// in play, non-finite reference). Parameters and presence must agree exactly.
+pub fn state_close<T: crate::sc::Sc>(w: &crate::run::World<T>, a: &crate::run::Snap, b: &crate::run::Snap) -> Option<bool> {
+    let to_t = |bits: &[u64]| -> Vec<T> { bits.iter().map(|b| T::of_bits(*b)).collect() };
+    if a.params != b.params || a.resid.is_some() != b.resid.is_some() || a.coeff.is_some() != b.coeff.is_some() || a.coeff_shape != b.coeff_shape {
+        return Some(false);
+    }
+    let (Some(ra), Some(rb), Some(ca), Some(cb)) = (&a.resid, &b.resid, &a.coeff, &b.coeff) else { return Some(true) };
+    let p: Vec<T> = to_t(&a.params);
+    if p.len() != w.p() {
+        return None;
+    }
+    let phiw = crate::refmath::phi_w::<T>(&w.spec, &w.x, w.w.as_ref(), &p);
+    let m = crate::refmath::M64::from_t(&phiw);
+    let sv = crate::refmath::singular_values(&m)?;
+    let (smax, smin) = (sv[0], *sv.last()?);
+    let eps = w.eps.map(|e| e.f().abs()).unwrap_or(2.0 * T::u());
+    if !(smin > 4.0 * eps) || smin < crate::refmath::underflow_range::<T>() || !smax.is_finite() {
+        return None;
+    }
+    let kappa = smax / smin;
+    let floor = if T::NAME == "f64" { 1e-8 } else { 2e-3 };
+    let rel = (64.0 * (w.n() as f64 + 8.0) * T::u() + floor) * kappa * kappa;
+    if !(rel < 0.02) {
+        return None;
+    }
+    let fin = |v: f64| if v.is_finite() { v } else { 0.0 };
+    let cmax = to_t(ca).iter().chain(to_t(cb).iter()).map(|v| fin(v.f().abs())).fold(0.0f64, f64::max);
+    let yw = w.weighted_y().iter().map(|v| fin(v.f().abs())).fold(0.0f64, f64::max);
+    let pmax = phiw.iter().map(|v| fin(v.f().abs())).fold(0.0f64, f64::max);
+    let r_scale = yw + pmax * cmax * w.m() as f64;
+    let c_scale = cmax.max(yw / smin);
+    let close = |x: &[u64], y: &[u64], scale: f64| {
+        x.len() == y.len()
+            && to_t(x).iter().zip(to_t(y).iter()).all(|(p, q)| {
+                let (p, q) = (p.f(), q.f());
+                p == q || !p.is_finite() || !q.is_finite() || (p - q).abs() <= rel * scale + 8.0 * T::tiny()
+            })
+    };
+    Some(close(ra, rb, r_scale) && close(ca, cb, c_scale))
+}
+
+
+/// A state the library reports vs. the state of a fresh reference problem. On the pinned tree
+/// both flavours compute the update path identically, so the comparison is bitwise. When the
+/// reported state was computed by the OTHER flavour than the reference (a fit on a parallel
+/// problem hands back a sequential one; the references of C04/C09 are sequential), a
+/// refactoring of one flavour may legitimately differ in the last bits: then - and only then -
+/// a conditioning-aware rounding bound decides. Presence and parameters always agree exactly.
+#[derive(Clone, Copy, Debug, PartialEq)]
+pub enum Agree {
+    Bitwise,
+    Rounding,
+    Gated,
+    No,
+}
+
+pub fn agree_with_reference<T: crate::sc::Sc>(w: &crate::run::World<T>, reference: &crate::run::Snap, reported: &crate::run::Snap, same_flavour: bool) -> Agree {
+    if reference.resid == reported.resid && reference.coeff == reported.coeff {
+        return Agree::Bitwise;
+    }
+    if same_flavour {
+        return Agree::No;
+    }
+    let mut r = reference.clone();
+    r.params = reported.params.clone();
+    match state_close::<T>(w, &r, reported) {
+        Some(true) => Agree::Rounding,
+        Some(false) => Agree::No,
+        None => Agree::Gated,
+    }
+}
